@@ -21,6 +21,10 @@
 EXTENDS Topology, TLC
 BS == INSTANCE BitmapStr
 
+\* With(e, LAMBDA x : B) is LET x == e IN B, evaluated once: TLC keeps the value of an operator argument but evaluates
+\* a LET definition again at every use (minutes instead of seconds where x is a parsed line or a list of objects)
+With(e, B(_)) == B(e)
+
 (* ------------------------------ set values ----------------------------- *)
 V0 == BS!Empty
 VR(r) == BS!FromRanges(r)                     \* r: sequence of <<lo, hi>>, hi = -1 infinite
@@ -252,16 +256,37 @@ ModeArgv(mode) ==
     [] mode.m = "largest" -> <<"--largest">> \o PoArgv(mode) \o SepArgv(mode)
     [] mode.m = "H" -> <<"-H", BS!Join(mode.tns, ".")>> \o PoArgv(mode) \o SepArgv(mode)
     [] mode.m = "badopt" -> mode.av
+    [] mode.m = "stdin" -> (IF mode.f = "" THEN <<>> ELSE <<"--cof", mode.f>>) \o (IF mode.q THEN <<"-q">> ELSE <<>>)
+\* hwloc-calc(1): "If no object or CPU mask strings are given on the command-line, the program will read the standard
+\* input.  It will combine multiple objects or CPU mask strings that are given on the same line of the standard input
+\* line with spaces as separators.  Different input lines will be processed separately."
+\* mode "stdin" (f, q, pad): the option tokens stay on the command line (so they are all in force before the first
+\* location), the locations go to one input line, which is given twice; pad: the line is made at least that long by
+\* additional separators (its length is what the tool's line buffer sees)
+IsOptTok(tok) == tok.k \in {"opt", "cif"}
+StdinOrder(toks) == SelectSeq(toks, IsOptTok) \o SelectSeq(toks, LAMBDA tok : ~IsOptTok(tok))
+StdinWords(toks) == LET ls == SelectSeq(toks, LAMBDA tok : ~IsOptTok(tok)) IN [k \in DOMAIN ls |-> ls[k].op \o LocTxt(ls[k])]
+StdinLine(toks, pad) ==
+  LET ws == StdinWords(toks)
+      base == BS!Join(ws, " ")
+      extra == IF pad > Len(base) THEN pad - Len(base) ELSE 0
+  IN IF Len(ws) <= 1 THEN base \o BS!Rep(" ", extra)
+     ELSE ws[1] \o BS!Rep(" ", extra) \o " " \o BS!Join(Tail(ws), " ")
+StdinText(toks, mode) == LET ln == StdinLine(toks, mode.pad) IN ln \o "\n" \o ln \o "\n"
+\* a word with a separator inside is not one word of an input line
+StdinPlain(toks) == \A k \in DOMAIN StdinWords(toks) : LET w == StdinWords(toks)[k] IN w # "" /\ \A i \in 1..Len(w) : BS!Ch(w, i) # " "
 \* the whole command line after the topology options; prev = stdout words of the previous invocation (feedback modes)
 FbSplit(prev, sep) == IF prev = <<>> \/ prev[1] = "" THEN <<>> ELSE BS!Split(prev[1], sep)
 CmdArgv(toks, mode, prev) ==
   CASE mode.m = "fbL" -> (IF mode.po THEN <<"--pi">> ELSE <<>>) \o FbSplit(prev, " ")
     [] mode.m = "fbH" -> <<"-I", mode.tn>> \o FbSplit(prev, " ")
+    [] mode.m = "stdin" -> ToksArgv(SelectSeq(toks, IsOptTok)) \o ModeArgv(mode)
     [] mode.pre -> ModeArgv(mode) \o ToksArgv(toks)
     [] OTHER -> ToksArgv(toks) \o ModeArgv(mode)
-ModeOK(mode) == /\ mode.m \in {"set", "I", "N", "largest", "H", "fbL", "fbH", "badopt"}
+ModeOK(mode) == /\ mode.m \in {"set", "I", "N", "largest", "H", "fbL", "fbH", "badopt", "stdin"}
                 /\ mode.m = "set" => mode.f \in BS!Fmts \cup {""} /\ mode.no \in BOOLEAN /\ mode.single \in BOOLEAN /\ mode.legacy \in BOOLEAN
                 /\ mode.m \in {"I", "largest", "H"} => mode.sep \in Seps /\ mode.po \in BOOLEAN
+                /\ mode.m = "stdin" => mode.f \in BS!Fmts \cup {""} /\ mode.q \in BOOLEAN /\ mode.pad \in Nat
 
 \* final option state: the mode's own option words come after (or before) the locations
 Final(st, mode) ==
@@ -291,11 +316,23 @@ ResolveTok(t, lnames, w, lo) ==
       ds == {d \in NormalDepths(t) : lnames[d + 1] = ps[1]}
   IN IF Len(ps) # 2 \/ ~BS!NumOK(ps[2]) THEN {}
      ELSE UNION {{p \in SeqSet(LObjs(t, d)) : IF lo THEN O(t, p).lidx = BS!NumVal(ps[2]) ELSE O(t, p).os = BS!NumVal(ps[2])} : d \in ds}
-LargestRel(t, cs, objs) ==
+LargestRelRef(t, cs, objs) ==
   /\ VSame(VUnion({OCS(t, p) : p \in objs}), cs)
   /\ \A p \in objs : \A q \in objs : p # q => ~VMeets(OCS(t, p), OCS(t, q))
   /\ \A p \in objs : ~\E q \in Pos(t) : /\ IsNormal(O(t, q)) /\ VSub(OCS(t, q), cs)
                                         /\ VSub(OCS(t, p), OCS(t, q)) /\ ~VSame(OCS(t, p), OCS(t, q))
+\* The same three clauses on explicit index sets: when all the sets involved are finite (the cpusets of objects always
+\* are) VSame / VMeets / VSub are =, non-empty intersection and \subseteq of the fin components.  Each object's set is
+\* built once (F) instead of once per pair of objects - with hundreds of objects the difference is minutes.
+\* MC_Calc!LargestEq compares the two formulations.
+LargestRelFin(t, objs, F, C) ==
+  With(TLCEval({q \in Pos(t) : IsNormal(O(t, q)) /\ F[q] \subseteq C}), LAMBDA Big :
+    /\ UNION {F[p] : p \in objs} = C
+    /\ \A p \in objs : \A q \in objs : p # q => F[p] \cap F[q] = {}
+    /\ \A p \in objs : ~\E q \in Big : F[p] \subseteq F[q] /\ F[p] # F[q])
+LargestRel(t, cs, objs) ==
+  IF cs.inf \/ \E p \in Pos(t) : OCS(t, p).inf THEN LargestRelRef(t, cs, objs)
+  ELSE LargestRelFin(t, TLCEval(objs), TLCEval([p \in Pos(t) |-> TLCEval(OCS(t, p).fin)]), TLCEval(cs.fin))
 \* a constructive witness (model-level non-vacuity of LargestRel): greedy from the root
 RECURSIVE LargestDo(_, _, _)
 LargestDo(t, p, cs) ==
@@ -307,14 +344,14 @@ LargestDo(t, p, cs) ==
 \* relative to the parent (or OS indexes)
 RECURSIVE HToks(_, _, _, _, _, _, _, _)
 HToks(t, lnames, ds, k, scope, set, prefix, lo) ==
-  LET cover == SelectSeq(LObjs(t, ds[k]), LAMBDA p : VMeets(OCS(t, p), scope))
-      One(j) == LET p == cover[j]
-                    s == prefix \o (IF k > 1 THEN "." ELSE "") \o lnames[ds[k] + 1] \o ":"
-                         \o (IF lo THEN BS!Dec(j - 1) ELSE IF O(t, p).os = -1 THEN "-1" ELSE BS!Dec(O(t, p).os))
-                IN IF ~VMeets(OCS(t, p), set) THEN <<>>
-                   ELSE IF k = Len(ds) THEN << [s |-> s, p |-> p] >>
-                   ELSE HToks(t, lnames, ds, k + 1, OCS(t, p), VAnd(set, OCS(t, p)), s, lo)
-  IN Flat([j \in DOMAIN cover |-> One(j)])
+  With(SelectSeq(LObjs(t, ds[k]), LAMBDA p : VMeets(OCS(t, p), scope)), LAMBDA cover :
+    LET One(j) == LET p == cover[j]
+                      s == prefix \o (IF k > 1 THEN "." ELSE "") \o lnames[ds[k] + 1] \o ":"
+                           \o (IF lo THEN BS!Dec(j - 1) ELSE IF O(t, p).os = -1 THEN "-1" ELSE BS!Dec(O(t, p).os))
+                  IN IF ~VMeets(OCS(t, p), set) THEN <<>>
+                     ELSE IF k = Len(ds) THEN << [s |-> s, p |-> p] >>
+                     ELSE HToks(t, lnames, ds, k + 1, OCS(t, p), VAnd(set, OCS(t, p)), s, lo)
+    IN Flat([j \in DOMAIN cover |-> One(j)]))
 HLevels(t, tns) == [k \in DOMAIN tns |-> LevelOfName(t, tns[k])]
 \* chains are determined when the types are normal and strictly deeper from left to right
 HDet(t, tns) == LET lv == HLevels(t, tns) IN
@@ -363,40 +400,45 @@ CalcRel(t, names, st, mode, ev, last) ==
                  /\ (last.I.tn = mode.tn /\ last.I.single = mode.single) => ev.lines[1] = BS!Dec(Len(last.I.words))
             [] mode.m = "largest" ->
                  IF ~VSub(st.cs, VR(t.tcs)) THEN TRUE
-                 ELSE LET sep == IF mode.sep = "" THEN " " ELSE mode.sep
-                          ws == WordsOf(ev.lines[1], sep)
-                          cand == [k \in DOMAIN ws |-> ResolveTok(t, lnames, ws[k], fin.lo)]
-                      IN /\ OneLine(ev)
-                         /\ fin.lo => \A k \in DOMAIN ws : Cardinality(cand[k]) = 1
-                         /\ (\A k \in DOMAIN ws : Cardinality(cand[k]) = 1) =>
-                               /\ LargestRel(t, st.cs, {CHOOSE p \in cand[k] : TRUE : k \in DOMAIN ws})
-                               /\ Cardinality({CHOOSE p \in cand[k] : TRUE : k \in DOMAIN ws}) = Len(ws)
+                 ELSE /\ OneLine(ev)
+                      /\ With(WordsOf(ev.lines[1], IF mode.sep = "" THEN " " ELSE mode.sep), LAMBDA ws :
+                         With(TLCEval([k \in DOMAIN ws |-> TLCEval(ResolveTok(t, lnames, ws[k], fin.lo))]), LAMBDA cand :
+                           /\ fin.lo => \A k \in DOMAIN ws : Cardinality(cand[k]) = 1
+                           /\ (\A k \in DOMAIN ws : Cardinality(cand[k]) = 1) =>
+                                 /\ LargestRel(t, st.cs, {CHOOSE p \in cand[k] : TRUE : k \in DOMAIN ws})
+                                 /\ Cardinality({CHOOSE p \in cand[k] : TRUE : k \in DOMAIN ws}) = Len(ws)))
             [] mode.m = "H" ->
                  IF ~HDet(t, mode.tns) THEN TRUE
                  ELSE LET sep == IF mode.sep = "" THEN " " ELSE mode.sep
                           ds == [k \in DOMAIN mode.tns |-> LevelOfName(t, mode.tns[k]).d]
-                          exp == HToks(t, lnames, ds, 1, OCS(t, 1), st.cs, "", fin.lo)
                       IN /\ OneLine(ev)
-                         /\ SameBag(WordsOf(ev.lines[1], sep), [k \in DOMAIN exp |-> exp[k].s])
+                         /\ With(HToks(t, lnames, ds, 1, OCS(t, 1), st.cs, "", fin.lo), LAMBDA exp :
+                              SameBag(WordsOf(ev.lines[1], sep), [k \in DOMAIN exp |-> exp[k].s]))
+            \* standard input: one output per input line; the same line twice gives the same set twice (whatever the
+            \* tool prints before, e.g. its prompt)
+            [] mode.m = "stdin" ->
+                 LET n == Len(ev.lines) IN
+                 /\ n >= 2
+                 /\ \A k \in {n - 1, n} : BS!OutOK(IF mode.f = "" THEN "hwloc" ELSE mode.f, ev.lines[k], IF fin.no THEN st.ns ELSE st.cs)
             \* "feeding --largest output back yields the same set" (when every word names one object)
             [] mode.m = "fbL" ->
-                 LET ws == FbSplit(last.out, " ")
-                     cand == [k \in DOMAIN ws |-> ResolveTok(t, lnames, ws[k], ~mode.po)]
-                 IN (last.m = "largest" /\ last.rc = 0 /\ ws # <<>> /\ (st.lo \/ mode.po) /\ VSub(st.cs, VR(t.tcs)) /\ \A k \in DOMAIN ws : Cardinality(cand[k]) = 1)
-                    => /\ OneLine(ev) /\ BS!OutOK("hwloc", ev.lines[1], st.cs)
+                 With(FbSplit(last.out, " "), LAMBDA ws :
+                 With(TLCEval([k \in DOMAIN ws |-> TLCEval(ResolveTok(t, lnames, ws[k], ~mode.po))]), LAMBDA cand :
+                   (last.m = "largest" /\ last.rc = 0 /\ ws # <<>> /\ (st.lo \/ mode.po) /\ VSub(st.cs, VR(t.tcs)) /\ \A k \in DOMAIN ws : Cardinality(cand[k]) = 1)
+                    => /\ OneLine(ev) /\ BS!OutOK("hwloc", ev.lines[1], st.cs)))
             \* the -H words fed back into -I <last type> list the same objects as -I <last type> of the original set,
             \* when every such object has an ancestor in each level of the chain
             [] mode.m = "fbH" ->
                  LET ds == [k \in DOMAIN last.tns |-> LevelOfName(t, last.tns[k]).d]
-                     exp == HToks(t, lnames, ds, 1, OCS(t, 1), st.cs, "", TRUE)
-                     finals == {exp[k].p : k \in DOMAIN exp}
                      dl == ds[Len(ds)]
-                     all == IObjs(t, dl, st.cs, st.ns, FALSE)
-                 IN (last.m = "H" /\ last.rc = 0 /\ ~last.po /\ st.lo /\ HDet(t, last.tns) /\ mode.tn = last.tns[Len(last.tns)] /\ exp # <<>>)
+                 IN
+                 With(IF last.m = "H" /\ HDet(t, last.tns) THEN HToks(t, lnames, ds, 1, OCS(t, 1), st.cs, "", TRUE) ELSE <<>>, LAMBDA exp :
+                 With({exp[k].p : k \in DOMAIN exp}, LAMBDA finals :
+                   (last.m = "H" /\ last.rc = 0 /\ ~last.po /\ st.lo /\ HDet(t, last.tns) /\ mode.tn = last.tns[Len(last.tns)] /\ exp # <<>>)
                     => /\ OneLine(ev)
                        /\ SeqSet(WordsOf(ev.lines[1], ",")) = {BS!Dec(O(t, p).lidx) : p \in finals}
-                       /\ (finals = SeqSet(all) /\ last.I.tn = mode.tn /\ ~last.I.po /\ ~last.I.oo /\ ~last.I.single)
-                             => SeqSet(WordsOf(ev.lines[1], ",")) = SeqSet(last.I.words)
+                       /\ (finals = SeqSet(IObjs(t, dl, st.cs, st.ns, FALSE)) /\ last.I.tn = mode.tn /\ ~last.I.po /\ ~last.I.oo /\ ~last.I.single)
+                             => SeqSet(WordsOf(ev.lines[1], ",")) = SeqSet(last.I.words)))
 
 (* ------------------------------ hwloc-distrib -------------------------- *)
 \* dm = [n, single, f, from, to, reverse]; roots: positions of the objects the distribution starts from;
@@ -407,41 +449,153 @@ DistribArgv(dm) == (IF dm.single THEN <<"--single">> ELSE <<>>) \o (IF dm.f = ""
                    \o (IF dm.from # "" /\ dm.from = dm.to THEN <<"--at", dm.from>>
                        ELSE (IF dm.from = "" THEN <<>> ELSE <<"--from", dm.from>>) \o (IF dm.to = "" THEN <<>> ELSE <<"--to", dm.to>>))
                    \o (IF dm.reverse THEN <<"--reverse">> ELSE <<>>) \o dm.extra \o (IF dm.n = -1 THEN <<>> ELSE <<BS!Dec(dm.n)>>)
-DistribRel(t, dm, ev) ==
-  LET f == IF dm.f = "" THEN "hwloc" ELSE dm.f
-      fromlv == IF dm.from = "" THEN [ok |-> TRUE, d |-> 0] ELSE LevelOfName(t, dm.from)
-      tolv == IF dm.to = "" THEN [ok |-> TRUE, d |-> t.depth] ELSE LevelOfName(t, dm.to)
-      roots == SeqSet(LObjs(t, fromlv.d))
-      R == VUnion({OCS(t, p) : p \in roots})
-      parsed == [k \in DOMAIN ev.lines |-> BS!Parse(f, ev.lines[k], TRUE)]
-      S(k) == parsed[k].v
-  IN
-  /\ NoCrash(ev)
-  /\ IF dm.extra # <<>> \/ dm.n = -1 THEN ev.rc # 0                       \* malformed: unknown option, missing / duplicate number
-     ELSE IF ~fromlv.ok \/ ~tolv.ok \/ fromlv.d < 0 \/ tolv.d < 0 THEN ev.rc # 0       \* unknown / unavailable / non-normal type
-     ELSE /\ ev.rc = 0
+\* R: the set the roots cover; parsed[k] = the set printed on line k
+DistribSets(t, dm, ev, fromlv, tolv, R, parsed) ==
+  LET S(k) == parsed[k].v IN
+          /\ ev.rc = 0
           /\ Len(ev.lines) = dm.n                                           \* exactly N sets
           /\ \A k \in DOMAIN ev.lines : parsed[k].ok /\ ~VEmpty(S(k)) /\ VSub(S(k), R)
           /\ dm.single => \A k \in DOMAIN ev.lines : ~S(k).inf /\ Cardinality(S(k).fin) = 1
           /\ (~dm.single /\ dm.n >= 1) => VSame(VUnion({S(k) : k \in DOMAIN ev.lines}), R)
           \* --to / --at: "distribute down to objects of the given type": no object of that level is split
           /\ (dm.to # "" /\ ~dm.single /\ fromlv.d <= tolv.d) =>
-                \A k \in DOMAIN ev.lines : \A p \in SeqSet(LObjs(t, tolv.d)) : VMeets(OCS(t, p), S(k)) => VSub(OCS(t, p), S(k))
+                With(TLCEval([p \in SeqSet(LObjs(t, tolv.d)) |-> OCS(t, p)]), LAMBDA OC :
+                  \A k \in DOMAIN ev.lines : \A p \in SeqSet(LObjs(t, tolv.d)) : VMeets(OC[p], S(k)) => VSub(OC[p], S(k)))
           /\ (dm.to = "" /\ dm.n <= Cardinality(R.fin)) =>
                 \A j \in DOMAIN ev.lines : \A k \in DOMAIN ev.lines : j # k => ~VMeets(S(j), S(k))
+DistribRel(t, dm, ev) ==
+  LET f == IF dm.f = "" THEN "hwloc" ELSE dm.f
+      fromlv == IF dm.from = "" THEN [ok |-> TRUE, d |-> 0] ELSE LevelOfName(t, dm.from)
+      tolv == IF dm.to = "" THEN [ok |-> TRUE, d |-> t.depth] ELSE LevelOfName(t, dm.to)
+  IN
+  /\ NoCrash(ev)
+  /\ IF dm.extra # <<>> \/ dm.n = -1 THEN ev.rc # 0                       \* malformed: unknown option, missing / duplicate number
+     ELSE IF ~fromlv.ok \/ ~tolv.ok \/ fromlv.d < 0 \/ tolv.d < 0 THEN ev.rc # 0       \* unknown / unavailable / non-normal type
+     ELSE DistribSets(t, dm, ev, fromlv, tolv, VUnion({OCS(t, p) : p \in SeqSet(LObjs(t, fromlv.d))}),
+                      TLCEval([k \in DOMAIN ev.lines |-> BS!Parse(f, ev.lines[k], TRUE)]))
 
 (* --------------------------------- lstopo ------------------------------ *)
-\* lm = [of, xflags, sflags]: the output is exactly the library export (text equality with what the helper
-\* obtained from hwloc_topology_export_xmlbuffer / _export_synthetic on the same topology and flags)
+\* One lstopo command line is the record
+\*   lm = [of, dest, filt, xw, sw, copts, extra]
+\*   of    output format name: xml | v2xml | v3xml | synthetic | console | bogus (not a format)
+\*   dest  how the format / destination is given: "of" (--of F) | "long" (--output-format F) | "dash" (-.F, stdout by
+\*         extension) | "file" (<path>.F, a new file) | "filef" (-f <path>.F, an existing file is overwritten)
+\*   filt  words of one topology-filtering option (lstopo(1): --filter <type>:<kind> and its documented shorthands)
+\*   xw/sw the word given to --export-xml-flags / --export-synthetic-flags ("" = option absent)
+\*   copts words of console-only display options; extra: words that make the command line malformed
+\* The relations: what the library configuration of the loaded topology is (LsCfg: filters, topology flags, export
+\* flags - the helper loads the same input that way), and LstopoRel: the text lstopo wrote is exactly the text the
+\* library export returned to the helper for the same topology and flags.
+LowerAZ == "abcdefghijklmnopqrstuvwxyz"
+UpperAZ == "ABCDEFGHIJKLMNOPQRSTUVWXYZ"
+UpCh(c) == LET S == {i \in 1..26 : BS!Ch(LowerAZ, i) = c} IN IF S = {} THEN c ELSE BS!Ch(UpperAZ, CHOOSE i \in S : TRUE)
+RECURSIVE Upper(_)
+Upper(s) == IF s = "" THEN "" ELSE UpCh(BS!Ch(s, 1)) \o Upper(SubSeq(s, 2, Len(s)))
+HasSub(s, p) == \E i \in 1..(Len(s) - Len(p) + 1) : SubSeq(s, i, i + Len(p) - 1) = p
+RECURSIVE SumOfSet(_)
+SumOfSet(S) == IF S = {} THEN 0 ELSE LET x == CHOOSE x \in S : TRUE IN x + SumOfSet(S \ {x})
+
+\* "Flags may be given as numeric values or as a comma-separated list of flag names ... Those names may be substrings
+\* of actual flag names as long as a single one matches ... (or none)": the value of a flags word, -1 when it is malformed
+SynFlagNames == << [n |-> "HWLOC_TOPOLOGY_EXPORT_SYNTHETIC_FLAG_NO_EXTENDED_TYPES", v |-> 1],
+                   [n |-> "HWLOC_TOPOLOGY_EXPORT_SYNTHETIC_FLAG_NO_ATTRS", v |-> 2],
+                   [n |-> "HWLOC_TOPOLOGY_EXPORT_SYNTHETIC_FLAG_V1", v |-> 4],
+                   [n |-> "HWLOC_TOPOLOGY_EXPORT_SYNTHETIC_FLAG_IGNORE_MEMORY", v |-> 8] >>
+XmlFlagNames == << [n |-> "HWLOC_TOPOLOGY_EXPORT_XML_FLAG_V2", v |-> 2] >>
+FlagPiece(p, names) == {k \in DOMAIN names : p # "" /\ HasSub(names[k].n, Upper(p))}
+FlagWordVal(txt, names) ==
+  IF BS!NumOK(txt) THEN BS!NumVal(txt)
+  ELSE IF Upper(txt) = "NONE" THEN 0
+  ELSE LET ps == BS!Split(txt, ",") IN
+       IF \E k \in DOMAIN ps : Cardinality(FlagPiece(ps[k], names)) # 1 THEN -1
+       ELSE SumOfSet({names[CHOOSE j \in FlagPiece(ps[k], names) : TRUE].v : k \in DOMAIN ps})
+
+\* type filters as the helper is given them: "<type number>:<filter number>,..."
+FilterKinds == {"all", "none", "structure", "important"}
+KindNo(k) == CASE k = "all" -> FILTER_KEEP_ALL [] k = "none" -> FILTER_KEEP_NONE [] k = "structure" -> FILTER_KEEP_STRUCTURE [] OTHER -> FILTER_KEEP_IMPORTANT
+TfOf(types, f) == BS!Join([k \in DOMAIN types |-> BS!Dec(types[k]) \o ":" \o BS!Dec(f)], ",")
+AllTypesSeq == [ty \in 1..NTYPES |-> ty - 1]
+CacheTypesSeq == <<L1, L2, L3, L4, L5, L1I, L2I, L3I, MEMCACHE>>
+ICacheTypesSeq == <<L1I, L2I, L3I>>
+IOTypesSeq == <<BRIDGE, PCIDEV, OSDEV>>
+FiltBad == [ok |-> FALSE, tf |-> "", fl |-> 8]
+FiltIs(tf) == [ok |-> TRUE, tf |-> tf, fl |-> 8]
+\* lstopo(1): "--filter <type>:<kind>: Filter objects of type <type>, or of any type if <type> is all.  io, cache and
+\* icache are also supported"; --no-io = io:none, --whole-io = io:all, --no-bridges = bridge:none, --merge = all:structure,
+\* --no-caches = cache:none, --no-useless-caches = cache:structure, --no-icaches = icache:none, --ignore <type> = <type>:none,
+\* --no-smt = PU:none.  PUs and NUMA nodes cannot be filtered out of a topology (hwloc_topology_set_type_filter): those
+\* options only change what lstopo draws.  fl: the topology flags (IMPORT_SUPPORT, plus INCLUDE_DISALLOWED for --disallowed)
+FilterOf(ty, kind) ==
+  IF kind \notin FilterKinds THEN FiltBad
+  ELSE IF ty = "all" THEN FiltIs(TfOf(AllTypesSeq, KindNo(kind)))
+  ELSE IF ty = "io" THEN FiltIs(TfOf(IOTypesSeq, KindNo(kind)))
+  ELSE IF ty = "cache" THEN FiltIs(TfOf(CacheTypesSeq, KindNo(kind)))
+  ELSE IF ty = "icache" THEN FiltIs(TfOf(ICacheTypesSeq, KindNo(kind)))
+  ELSE IF TypeOfName(ty) = -1 THEN FiltBad
+  ELSE IF TypeOfName(ty) \in {PU, NUMANODE} THEN FiltIs("")
+  ELSE FiltIs(TfOf(<<TypeOfName(ty)>>, KindNo(kind)))
+FiltOf(w) ==
+  CASE w = <<>> -> FiltIs("")
+    [] w = <<"--merge">> -> FilterOf("all", "structure")
+    [] w = <<"--no-io">> -> FilterOf("io", "none")
+    [] w = <<"--whole-io">> -> FilterOf("io", "all")
+    [] w = <<"--no-bridges">> -> FilterOf("bridge", "none")
+    [] w = <<"--no-caches">> -> FilterOf("cache", "none")
+    [] w = <<"--no-useless-caches">> -> FilterOf("cache", "structure")
+    [] w = <<"--no-icaches">> -> FilterOf("icache", "none")
+    [] w = <<"--no-smt">> -> FilterOf("pu", "none")
+    [] w \in {<<"--disallowed">>, <<"--whole-system">>} -> [ok |-> TRUE, tf |-> "", fl |-> 9]
+    [] Len(w) = 2 /\ w[1] = "--filter" ->
+         LET ps == BS!Split(w[2], ":") IN IF Len(ps) # 2 THEN FiltBad ELSE FilterOf(ps[1], ps[2])
+    [] Len(w) = 2 /\ w[1] = "--ignore" -> IF w[2] \in {"cache", "all", "io", "icache"} THEN FiltBad ELSE FilterOf(w[2], "none")
+    [] OTHER -> FiltBad
+
+LsOfs == {"xml", "v2xml", "v3xml", "synthetic", "console", "bogus"}
+LsDests == {"of", "long", "dash", "file", "filef"}
+LsIsXml(lm) == lm.of \in {"xml", "v2xml", "v3xml"}
+LsXmlVal(lm) == IF lm.xw = "" THEN 0 ELSE FlagWordVal(lm.xw, XmlFlagNames)
+LsSynVal(lm) == IF lm.sw = "" THEN 0 ELSE FlagWordVal(lm.sw, SynFlagNames)
+\* "Output formats v2xml and v3xml may also be used to specify which XML version is desired" (after the flags option)
+LsXmlFlags(lm) == LET v == LsXmlVal(lm)  has == (v \div 2) % 2 = 1 IN
+  CASE lm.of = "v2xml" -> IF has THEN v ELSE v + 2
+    [] lm.of = "v3xml" -> IF has THEN v - 2 ELSE v
+    [] OTHER -> v
+LsMalformed(lm) == \/ lm.extra # <<>> \/ lm.of = "bogus" \/ ~FiltOf(lm.filt).ok
+                   \/ LsXmlVal(lm) = -1 \/ LsSynVal(lm) = -1
+LmOK(lm) == /\ lm.of \in LsOfs /\ lm.dest \in LsDests
+            /\ \A k \in DOMAIN lm.filt : Len(lm.filt[k]) >= 0
+            /\ \A k \in DOMAIN lm.copts : Len(lm.copts[k]) >= 0
+            /\ \A k \in DOMAIN lm.extra : Len(lm.extra[k]) >= 0
+            /\ Len(lm.xw) >= 0 /\ Len(lm.sw) >= 0
+\* the library configuration of the topology lstopo exports: [tf, fl, xmlf, synf] (-1: no such export)
+LsCfg(lm) == LET bad == LsMalformed(lm) IN
+  [tf |-> IF bad THEN "" ELSE FiltOf(lm.filt).tf,
+   fl |-> IF bad THEN 8 ELSE FiltOf(lm.filt).fl,
+   xmlf |-> IF ~bad /\ LsIsXml(lm) THEN LsXmlFlags(lm) ELSE -1,
+   synf |-> IF ~bad /\ lm.of = "synthetic" THEN LsSynVal(lm) ELSE -1]
+\* the command line after the input options; outfile: the path given for dest file / filef (its extension names the format)
+LsDestArgv(lm, outfile) ==
+  CASE lm.dest = "of" -> <<"--of", lm.of>>
+    [] lm.dest = "long" -> <<"--output-format", lm.of>>
+    [] lm.dest = "dash" -> <<"-." \o lm.of>>
+    [] lm.dest = "file" -> <<outfile>>
+    [] lm.dest = "filef" -> <<"-f", outfile>>
+LstopoArgv(lm, outfile) ==
+  lm.filt \o (IF lm.xw = "" THEN <<>> ELSE <<"--export-xml-flags", lm.xw>>)
+          \o (IF lm.sw = "" THEN <<>> ELSE <<"--export-synthetic-flags", lm.sw>>)
+          \o lm.copts \o lm.extra \o LsDestArgv(lm, outfile)
+EndsWith(s, p) == Len(s) >= Len(p) /\ SubSeq(s, Len(s) - Len(p) + 1, Len(s)) = p
+\* ev.text / ev.lines: what lstopo wrote to its destination (standard output, or the file for dest file / filef)
 LstopoRel(lib, lm, ev) ==
   /\ NoCrash(ev)
-  /\ IF lm.of = "xml" THEN
+  /\ IF LsMalformed(lm) THEN ev.rc # 0                                       \* malformed arguments, unknown output format
+     ELSE IF LsIsXml(lm) THEN
         IF lib.xmlret < 0 THEN ev.rc # 0
         ELSE ev.rc = 0 /\ ev.text = lib.xml
      ELSE IF lm.of = "synthetic" THEN
         IF lib.synret < 0 THEN ev.rc # 0
         ELSE ev.rc = 0 /\ ev.lines = <<lib.syn>>
-     ELSE ev.rc # 0                                                          \* unknown output format
+     ELSE TRUE                                                               \* console: the rendering is not specified here
 \* "and reload to an equivalent topology": projections equal up to what the export format does not carry
 ObjView(o) == [type |-> o.type, os |-> o.os, depth |-> o.depth, lidx |-> o.lidx, cs |-> o.cs, ns |-> o.ns, ccs |-> o.ccs, cns |-> o.cns,
                parent |-> o.parent, kids |-> o.kids, mem |-> o.mem, io |-> o.io, misc |-> o.misc, st |-> o.st, name |-> o.name,
